@@ -21,10 +21,14 @@ func c14OrderedKey(c *eng.Ctx) {
 	c.Rule("R3", "the cursor key is a function of the ordered ready list: nothing from which the key derives is passed to a sorting function (package sort / slices) in Pop", 1)
 	n := 0
 	for _, pop := range popImpls(c) {
+		// the cursor lookups executed as part of Pop — in Pop itself or in a helper that is handed the
+		// key (and possibly the cursor map) — and every sorting call in the same functions
+		tree := popTree(c, pop)
+		funcs := tree.Funcs()
 		var keys []ssa.Value
-		for _, fn := range c.W.Region(pop) {
+		for _, fn := range funcs {
 			for _, ci := range eng.CallsTo(fn, "(*sync.Map).LoadOrStore", "(*sync.Map).Load") {
-				if eng.FieldAddrOf(eng.Receiver(ci), tClusterInfo, "loadbalancer") {
+				if c14IsBalancer(tree, ci) {
 					keys = append(keys, eng.Args(ci)[0])
 				}
 			}
@@ -32,9 +36,9 @@ func c14OrderedKey(c *eng.Ctx) {
 		if len(keys) == 0 {
 			continue // single-counter or other shapes are judged by R1
 		}
-		sl := c.Slicer().WithArgs()
+		sl := deepSlicer(c).WithArgs().WithUp()
 		bad := ""
-		for _, fn := range c.W.Region(pop) {
+		for _, fn := range funcs {
 			for _, ci := range eng.Calls(fn) {
 				o := eng.CalleeObj(ci)
 				if o == nil || o.Pkg() == nil {
